@@ -44,7 +44,7 @@ Init ==
 OpN(op, n) == IF op \in {"r1", "w1"} THEN 1 ELSE n
 Applicable(c, op) ==
   /\ (op \in {"pad", "padw"}) => c.b
-  /\ (c.kind \in {"fd", "fdfull", "fdbad"}) => op \notin {"skip", "skipw", "pad", "padw"}
+  /\ (c.kind \in {"fd", "fdfull", "fdbad", "fdpart"}) => op \notin {"skip", "skipw", "pad", "padw"}
 PadBytes(n) == IF n >= 0 THEN [i \in 1..n |-> 0] ELSE <<>>
 
 Next ==
